@@ -1,5 +1,5 @@
 """Human-written texts of MANIFEST.json (kept apart from the machinery)."""
-HOOK_COMMITS = []
+HOOK_COMMITS = ["ce85ca1"]
 NOTES = ("All checks are driven by bin/check; the TLA+ specification lives in spec/, the Go conformance harness in harness/ "
          "(its go.mod is generated from /repo/go.mod with replace => /repo, so every run rebuilds from /repo's working tree). "
          "Known findings are listed in known_findings.json.")
